@@ -7,10 +7,13 @@ package main
 var claimed = map[string]bool{
 	"C01": true,
 	"C03": true,
+	"C04": true,
 	"C05": true,
 	"C06": true,
 	"C09": true,
 	"C10": true,
+	"C13": true,
+	"C15": true,
 	"C16": true,
 	"C17": true,
 	"C18": true,
